@@ -299,7 +299,11 @@ func TestC07(t *testing.T) {
 			if len(list) >= 3 {
 				vs := make([]eco.Ver, len(list))
 				for i, s := range list {
-					vs[i], _ = e.NewVersion(s)
+					v, err := e.NewVersion(s)
+					if err != nil {
+						return
+					}
+					vs[i] = v
 				}
 				eqPair, inversion := false, false
 				for i := range vs {
